@@ -732,6 +732,29 @@ func c07Predict(c *fw.Ctx, w *world, op *drv.Op, res drv.Res, pre []bson.D, cfgs
 		tres := drv.Exec(ctx, tc, &top)
 		if tres.Err != "" {
 			// the twin rejects the call for another reason (or an _id clash)
+			if tres.Unique && res.Unique && op.Kind != drv.ReplaceOne && op.Kind != drv.FindOneAndReplace {
+				// the twin has no unique index but _id_: an update cannot change an
+				// _id, so only an upsert that inserts can clash there - and an
+				// upsert never inserts when a present document matches the filter
+				matches := false
+				for _, d := range pre {
+					info := &ref.MatchInfo{}
+					f := op.Filter
+					if op.Kind == drv.UpdateByID {
+						f = bson.D{{Key: "_id", Value: op.ID}}
+					}
+					if m, err := ref.Match(d, f, info); err == nil && !info.OutOfDomain && m {
+						matches = true
+					}
+				}
+				if matches {
+					c.Count("matched_upsert_predictions", 1)
+					c.Violate("unique:rejected-without-conflict", fmt.Sprintf("the %s matches a present document, so it inserts nothing and cannot create a second document with a key, but it was rejected with a uniqueness error: %q", op.Kind, res.Err),
+						witness(map[string]interface{}{"op": op.String(), "collection_before": jsonList(pre)}))
+					*violated = true
+					return
+				}
+			}
 			if res.Err == "" {
 				c.Violate("unique:twin-error-only", "a call failed on a collection holding the same documents without the secondary indexes but succeeded on the real one: "+tres.Err,
 					witness(map[string]interface{}{"op": op.String(), "collection_before": jsonList(pre)}))
